@@ -529,8 +529,8 @@ def render_instance(rng, x, lay=True, cmt=True, risky=None):
         body = rng.choice(["it's here", "don't", "'", " a'b'c "]) if risky == "apostrophe-in-comment" else rng.choice(["see /* here", "/*", " x /* y /* z "])
         out += "/*" + body + "*/" + ws(rng, lay)
     if risky == "comment-above-8192":
-        # a conforming comment longer than the eager reader's MAX_COMMENT_LENGTH (read_func.cc ReadComment gives up and skips the instance)
-        out += "/*" + "c" * rng.choice([8193, 8200, 9000, 20000]) + "*/" + ws(rng, lay)
+        # a conforming comment longer than the eager reader's MAX_COMMENT_LENGTH (before fixes/C01-9 ReadComment gave up and skipped the instance)
+        out += "/*" + "c" * rng.choice([8193, 8200, 9000, 20000, 65536, 70000]) + "*/" + ws(rng, lay)
     if risky == "two-comments-before-instance":
         out += comment(rng, semi=False) + ws(rng, lay) + comment(rng, semi=False) + ws(rng, lay)
     if risky == "id-above-int-max":
